@@ -1,3 +1,169 @@
-(* Suite "styler": requests evaluated by the model for the correspondence check (stub). *)
-From Klog Require Import Base.Prelude Model.Show Model.Styler.
-Definition suite_styler (cmd : bytes) (args : list bytes) : option bytes := None.
+(* Suite "styler" (C18): requests evaluated by the model for the correspondence check.
+
+   style-format <scheme> <props> <props2> <hex text>   -> ok <hex Format(text)> <hex FormatAndRestore(text, props2)> | crash
+   style-strip <hex text>                              -> ok <hex StripAllAnsiSequences(text)> <rune count of it>
+   style-doc <scheme> <tok>...                         -> ok <hex render under scheme> <hex render under no_colour> | crash
+       tok: P<hex> plain text | (<props> open a styled piece | ) close it
+   table-render <scheme> <cols> <hex sep> <cell>...    -> ok <hex Collect output> | crash
+       cell: L,<style>,<hex> | R,<style>,<hex> | F,<style>,<hex> | S,<n>    style: n (plain) | <props>
+   style-print <scheme> <tok>...                       -> ok <hex `klog print` under scheme> <hex under no_colour>
+       tok: R,<hex date>,<hex should-total text> new record | S,<segs> record summary line
+          | E,<d|r|o>,<hex value> new entry (duration, range, open range) | L,<segs> entry summary line
+       segs: t<hex> (text) and g<hex> (tag) joined by "."; "-" for none
+   props: <colour>,<background>,<bold 0/1>,<underlined 0/1>;  "-" is the empty string. *)
+From Klog Require Import Base.Prelude Base.Utf8 Model.Show Model.Styler Model.Table Model.TextSer.
+Open Scope Z_scope.
+
+(* "-" stands for the empty string, as in requests *)
+Definition hx0 (s : bytes) : bytes := match s with [] => b!"-" | _ => hex_of_bytes s end.
+
+Definition parse_props (s : bytes) : props :=
+  match split_on 44%N s [] with
+  | [c; b; bo; u] =>
+    mk_props (Z.to_N (parse_int c)) (Z.to_N (parse_int b)) (bytes_eqb bo b!"1") (bytes_eqb u b!"1")
+  | _ => no_props
+  end.
+
+(* recursive descent over the document tokens; returns the pieces read and the remaining tokens *)
+Fixpoint parse_doc (fuel : nat) (toks : list bytes) : list piece * list bytes :=
+  match fuel with
+  | O => ([], toks)
+  | S k =>
+    match toks with
+    | [] => ([], [])
+    | t :: r =>
+      match t with
+      | 80%N :: h =>                                   (* P<hex> *)
+        let '(ps, rest) := parse_doc k r in (Plain (arg_bytes h) :: ps, rest)
+      | 40%N :: pr =>                                  (* (<props> *)
+        let '(kids, rest) := parse_doc k r in
+        let '(ps, rest') := parse_doc k rest in
+        (Styled (parse_props pr) kids :: ps, rest')
+      | _ => ([], r)                                   (* ) or anything else closes *)
+      end
+    end
+  end.
+
+Definition styled_text (th : theme) (style text : bytes) : bytes :=
+  if bytes_eqb style b!"n" then text else format th (parse_props style) text.
+
+Definition parse_cell (th : theme) (s : bytes) : option op :=
+  match split_on 44%N s [] with
+  | [k; a] => if bytes_eqb k b!"S" then Some (OSkip (parse_int a)) else None
+  | k :: rest =>
+    match rev rest with
+    | h :: rstyle =>
+      let style := join [44%N] (rev rstyle) in
+      let v := styled_text th style (arg_bytes h) in
+      if bytes_eqb k b!"L" then Some (OCellL v)
+      else if bytes_eqb k b!"R" then Some (OCellR v)
+      else if bytes_eqb k b!"F" then Some (OFill v)
+      else None
+    | [] => None
+    end
+  | [] => None
+  end.
+
+(* ---- records for style-print (built back to front, then reversed) ---- *)
+
+Definition parse_seg (x : bytes) : seg :=
+  match x with
+  | 103%N :: h => (true, arg_bytes h)
+  | _ :: h => (false, arg_bytes h)
+  | [] => (false, [])
+  end.
+
+Definition parse_segs (s : bytes) : list seg :=
+  if bytes_eqb s b!"-" then [] else map parse_seg (split_on 46%N s []).
+
+Definition parse_kind (s : bytes) : entry_kind :=
+  if bytes_eqb s b!"r" then KRange else if bytes_eqb s b!"o" then KOpenRange else KDuration.
+
+Definition add_print_tok (acc : list p_record) (t : bytes) : list p_record :=
+  match split_on 44%N t [] with
+  | [k; a; b] =>
+    if bytes_eqb k b!"R" then mk_record (arg_bytes a) (arg_bytes b) [] [] :: acc
+    else if bytes_eqb k b!"E" then
+      match acc with
+      | r :: rest => mk_record (pr_date_text r) (pr_should_text r) (pr_summary_lines r)
+                               (mk_entry (parse_kind a) (arg_bytes b) [] :: pr_entries r) :: rest
+      | [] => []
+      end
+    else acc
+  | [k; a] =>
+    match acc with
+    | r :: rest =>
+      if bytes_eqb k b!"S" then
+        mk_record (pr_date_text r) (pr_should_text r) (parse_segs a :: pr_summary_lines r) (pr_entries r) :: rest
+      else if bytes_eqb k b!"L" then
+        match pr_entries r with
+        | e :: es => mk_record (pr_date_text r) (pr_should_text r) (pr_summary_lines r)
+                               (mk_entry (pe_kind e) (pe_text e) (parse_segs a :: pe_summary e) :: es) :: rest
+        | [] => acc
+        end
+      else acc
+    | [] => []
+    end
+  | _ => acc
+  end.
+
+Definition finish_entry (e : p_entry) : p_entry := mk_entry (pe_kind e) (pe_text e) (rev (pe_summary e)).
+Definition finish_record (r : p_record) : p_record :=
+  mk_record (pr_date_text r) (pr_should_text r) (rev (pr_summary_lines r)) (rev (map finish_entry (pr_entries r))).
+
+Definition parse_records (toks : list bytes) : list p_record :=
+  rev (map finish_record (fold_left add_print_tok toks [])).
+
+Definition keep_some {A} (l : list (option A)) : list A :=
+  flat_map (fun o => match o with Some x => [x] | None => [] end) l.
+
+Definition suite_styler (cmd : bytes) (args : list bytes) : option bytes :=
+  if bytes_eqb cmd b!"style-format" then
+    match args with
+    | [scheme; p; p2; s] =>
+      Some (match new_styler scheme with
+            | Ok th => words [b!"ok"; hx0 (format th (parse_props p) (arg_bytes s));
+                              hx0 (format_and_restore th (parse_props p) (arg_bytes s) (parse_props p2))]
+            | _ => b!"crash"
+            end)
+    | _ => None
+    end
+  else if bytes_eqb cmd b!"style-strip" then
+    match args with
+    | [s] => let r := strip (arg_bytes s) in
+             Some (words [b!"ok"; hx0 r; dec (Z.of_nat (rune_count r))])
+    | _ => None
+    end
+  else if bytes_eqb cmd b!"style-doc" then
+    match args with
+    | scheme :: toks =>
+      Some (match new_styler scheme with
+            | Ok th => let doc := fst (parse_doc (length toks) toks) in
+                       words [b!"ok"; hx0 (render_doc th doc); hx0 (render_doc no_colour doc)]
+            | _ => b!"crash"
+            end)
+    | _ => None
+    end
+  else if bytes_eqb cmd b!"style-print" then
+    match args with
+    | scheme :: toks =>
+      Some (match new_styler scheme with
+            | Ok th => let doc := print_doc (parse_records toks) in
+                       words [b!"ok"; hx0 (render_doc th doc); hx0 (render_doc no_colour doc)]
+            | _ => b!"crash"
+            end)
+    | _ => None
+    end
+  else if bytes_eqb cmd b!"table-render" then
+    match args with
+    | scheme :: cols :: sep :: cells =>
+      Some (match new_styler scheme with
+            | Ok th =>
+              show_outcome hx0
+                (let* t := build (parse_int cols) (arg_bytes sep) (keep_some (map (parse_cell th) cells)) in
+                 collect t)
+            | _ => b!"crash"
+            end)
+    | _ => None
+    end
+  else None.
